@@ -18,7 +18,7 @@ theorem normExamples_sorted (dmin ddef dmax : Rat) :
 theorem plm_new_normExamples (dmin ddef dmax : Rat) :
     Plm.new (normExamples dmin ddef dmax) = ⟨normExamples dmin ddef dmax⟩ := by
   unfold Plm.new
-  rw [List.mergeSort_of_pairwise (normExamples_sorted dmin ddef dmax)]
+  rw [sortPts_of_pairwise _ (normExamples_sorted dmin ddef dmax)]
 
 /-- `design_to_normalized` of `CoordConverter::new` is the property's design normalisation on
     `[design min, design max]`. -/
@@ -31,7 +31,7 @@ theorem d2n_closed (dmin ddef dmax d : Rat) (h1 : dmin ≤ ddef) (h2 : ddef ≤ 
   all_goals (split_ifs <;> grind)
 
 theorem plm_new_sorted (l : List Pt) (h : l.Pairwise (fun a b => ptLe a b = true)) : Plm.new l = ⟨l⟩ := by
-  unfold Plm.new; rw [List.mergeSort_of_pairwise h]
+  unfold Plm.new; rw [sortPts_of_pairwise _ h]
 
 /-- the four shapes of `CoordConverter::default_normalization` -/
 theorem defaultNormalization_fields (mn df mx : Rat) (h1 : mn ≤ df) (h2 : df ≤ mx) :
